@@ -163,6 +163,13 @@ def drive(e, ops, pr, n, fixed_dt=None):
         if fixed_dt:
             consumed = int(round((eng.raw_time(e) - before_t) / fixed_dt))
         log.append((op, bool(r), consumed))
+        if not r:
+            break      # complete: how many iterations a run slice performs is not fixed by the statement, so a schedule
+                       # may be used up early; the rest of it would act on a completed simulation (C10's subject)
+    k = 0
+    while r and k < 10000:      # ... or late: the iteration sequence is consumed to its end one step at a time
+        r = e.iterate()
+        k += 1
     e.sample()
     o = e.get_output()
     return log, (o.t.value.tobytes(), o.data.value.tobytes())
@@ -198,11 +205,12 @@ def check_schedule(case):
     for op, r, consumed in log:
         c = COST[op]
         exp_consumed = min(c, remaining) if remaining > 0 else 0
-        remaining_after = remaining - c
+        remaining_after = remaining - (consumed if (consumed is not None and op[0] == "R") else c)
         exp_ret = remaining_after > 0
         if remaining <= 0:
             exp_ret = False
-        if consumed is not None and op != "RU" and consumed != exp_consumed and remaining > 0:
+        if consumed is not None and op[0] in "IN" and consumed != exp_consumed and remaining > 0:
+            # iterate() is one iteration and iterate_n(k) a batch of k; the length of a wall-clock-bounded slice is not pinned
             out.append(("C08:schedule:%s:iterations-consumed" % op[0], "schedule %s: %s performed %d iterations, expected %d" % (ops, op, consumed, exp_consumed)))
             break
         if r != exp_ret:
